@@ -575,7 +575,9 @@ pub fn check_sendable(sc: &Scenario) -> Vec<Violation> {
                 // build without `parallel`, dispatch_seq otherwise)
                 b.ctx.mode.store(1, Ordering::SeqCst);
                 b.ctx.events.lock().unwrap().clear();
+                b.ctx.dispatching.store(true, Ordering::SeqCst);
                 sd.dispatch_seq(&b.world);
+                b.ctx.dispatching.store(false, Ordering::SeqCst);
                 b.ctx.mode.store(0, Ordering::SeqCst);
                 let evs = std::mem::take(&mut *b.ctx.events.lock().unwrap());
                 let order: Vec<usize> = evs.iter().filter(|e| e.kind == crate::sys::Ev::Enter && infos[e.sid as usize].parent.is_none()).map(|e| e.sid as usize).collect();
